@@ -101,10 +101,12 @@ def fake_cache(it, mod, name='the_cache', key=b'', prog_size=1):
 
 def run_ctors(it, mod):
     """dynamic initialisers of the linked units (sizes of the assembly templates etc.)"""
+    from engine import irsym as _ir
+    _ir.TRACK_GLOBALS[0] = False      # static initialisation runs before any thread exists: its writes to globals are not part of a footprint
     it.asm_zero = True          # cpuid results during static initialisation are irrelevant to the lemmas of this module: fixed, not forked
     for f in mod.funcs:
         if f.startswith('_GLOBAL__sub_I_'): it.call(f, [])
-    it.asm_zero = False
+    it.asm_zero = False; _ir.TRACK_GLOBALS[0] = True
 
 def bind_templates(it, ctx):
     """the hand-written template symbols of jit_compiler_x86_static.S as pointers into one 'text' object holding the assembled bytes"""
